@@ -20,6 +20,9 @@ def currentCfg : Cfg := {
   extKeepAll := true,
   extSchemaDres := true,
   extInputFieldExtended := true,
-  cloneRegsDeep := true
+  cloneRegsDeep := true,
+  cloneRegsFiltered := true,
+  cloneRegsByValue := true,
+  extKeepRegs := true
 }
 end PyGql.Generated.HeapCfg
